@@ -101,6 +101,11 @@ CLAIMED = {
             "Every generated (clean text, probabilities, seed, tokenizer config) runs the real preprocessing and task functions; held on the executions listed in the evidence.",
             "trusted: the harness's independent code-point alignment for counting insertions / deletions; unicode-segmentation.",
             "DESIGN.md 6/C14"),
+    "C20": ("exploration",
+            "differential runtime oracle: real Dictionary::create (word / char-1 / char-3 modes) vs an independent regex-free counter, repeated for thread counts 0..255 and compared between runs; top-k cut, freq_sum, save/load round trip, get, get_closest vs the harness's own Levenshtein; release-profile lane in thorough",
+            "Every case creates the dictionary several times with different thread counts from generated files and compares each result with an independent count and with the other runs; held on the creates listed in the evidence. Counting schedules are whatever the OS produces.",
+            "trusted: the harness's reference counter (validated against split_words / normalize on its restricted alphabet); ties at the cut may be broken either way.",
+            "DESIGN.md 6/C20"),
 }
 
 PENDING_REASON = "monitor not built yet in this session (planned in DESIGN.md section 6); not claimed until its check exists and is silent on the unchanged tree"
